@@ -34,8 +34,13 @@ def impl(case):
     if case.get("op") == "history":
         return impl_history(case)
     from paulie import get_pauli_string, PauliString, average_otoc, average_graph_complexity, fourpoint
+    from harness.cls import mk_string
     g = get_pauli_string(case["gens"])
-    P = lambda s: PauliString(pauli_str=s)  # noqa: E731
+    routes = case.get("routes", ["parse", "parse"])
+    _k = [0]
+    def P(s):   # V, W, ... as objects reached through different public routes (fresh, edited in place after use, ...)
+        _k[0] += 1
+        return mk_string(s, routes[_k[0] % len(routes)])
     out = {}
     def safe(name, f):
         try:
@@ -92,7 +97,9 @@ def main():
         w = G.uniform(ck.rng, n) if ck.rng.random() < 0.8 else v
         if ck.rng.random() < 0.05:
             v = "I" * n
-        c = {"gens": g, "v": v, "w": w, "n": n, "gens2": regen(ck.rng, g), "complexity": n <= (4 if ck.quick else 5)}
+        from harness.cls import STRING_ROUTES
+        c = {"gens": g, "v": v, "w": w, "n": n, "gens2": regen(ck.rng, g), "complexity": n <= (4 if ck.quick else 5),
+             "routes": [ck.rng.choice(STRING_ROUTES), ck.rng.choice(STRING_ROUTES), ck.rng.choice(STRING_ROUTES)]}
         if ck.rng.random() < 0.3:
             p, q = v, w
             l = G.commuting_with_all(ck.rng, n, g) if ck.rng.random() < 0.7 else G.uniform(ck.rng, n)
